@@ -32,7 +32,7 @@ func freeRunMain(id string, runs int, worker, workers int) int {
 				continue
 			}
 			seen := map[string]bool{}
-			ex := &explore.Explorer{Budget: explore.Budget{K: 1, D: 1}, MaxExecs: 3000}
+			ex := &explore.Explorer{Budget: explore.Budget{K: 1, D: 1}, MaxExecs: 400}
 			ex.Run = func(ch *explore.Chooser) string {
 				_, obs, _, _ := dagh.Execute(sc, ch, nil)
 				seen[obs.CoarseKey()] = true
@@ -54,7 +54,7 @@ func freeRunMain(id string, runs int, worker, workers int) int {
 			}
 			if obs.Started != "timeout" && !it.seen[obs.Key()] {
 				notIn++
-				fmt.Fprintf(os.Stderr, "note: free-running outcome %q of %s was not produced by the bounded exploration (k<=1,d<=1)\n", obs.Key(), it.sc)
+				fmt.Fprintf(os.Stderr, "note: free-running outcome %q of %s was not among the first 400 executions of the bounded exploration (k<=1,d<=1)\n", obs.Key(), it.sc)
 			}
 		}
 	}
